@@ -3,7 +3,7 @@
 import codecs
 import inspect
 from contextlib import contextmanager, nullcontext
-from itertools import islice
+from itertools import islice, takewhile
 
 import hy
 from hy.models import (
@@ -479,7 +479,12 @@ class HyReader(Reader):
             if fstring_mode:
                 # handle braces in f-strings
                 if c == "{":
-                    if "r" not in prefix and s[-3:] == ["\\", "N", "{"]:
+                    if (
+                        "r" not in prefix
+                        and s[-3:] == ["\\", "N", "{"]
+                        # The backslash must not be escaped itself.
+                        and len(list(takewhile(lambda c: c == "\\", reversed(s[:-2])))) % 2
+                    ):
                         # ignore "\N{...}"
                         in_named_escape = True
                     elif not self.peek_and_getc("{"):
